@@ -288,6 +288,13 @@ def _set_registration(lib, custom):
     R = lib["R"]
     for kind, cls in (("done", lib["TopRowDone"]), ("observer", lib["CustomObserver"])):
         if custom:
+            # an earlier version of the component, registered first under the SAME class name:
+            # the later registration replaces it (the registry maps names to the latest class)
+            stale = type(cls.__name__, (cls,), {"get_done": lambda self, agent, **kw: True,
+                                                "get_all_done": lambda self, **kw: True,
+                                                "get_obs": lambda self, agent, **kw: {self.key: np.array([-9, -9])}})
+            R.registry[kind].pop(cls.__name__, None)
+            R.register(stale)
             R.register(cls)
         else:
             R.registry[kind].pop(cls.__name__, None)
@@ -353,6 +360,13 @@ def impl_smart(inp):
         tm = {}
         for e in tmap[1]:
             tm[e[0]] = e[2] if e[1] == 0 else set(e[2:])
+            # a user who writes one table for two purposes: where a target set equals an overlap
+            # set it IS that object (a component that edits the sets it was given in place would
+            # change the other configuration with it)
+            for ov_set in build_kw["overlapping"].values():
+                if isinstance(tm[e[0]], set) and ov_set == tm[e[0]]:
+                    tm[e[0]] = ov_set
+                    break
         build_kw["target_mapping"] = tm
     if one:
         build_kw["sim_ends_if_one_done"] = bool(one[0])
